@@ -3,6 +3,7 @@ from .lib.match import *
 
 SELECT = r'^bluetoe::details::(collect_primary_services|services_by_group)::each$|^bluetoe::server::(handle_read_by_group_type_request|handle_find_by_type_value_request)$|^bluetoe::service::read_primary_service_response$|^bluetoe::details::generate_attribute::access$'
 UNITS = lambda u: u in ('w_inst_att',) or u.startswith('t_att_read_by_group') or u.startswith('t_att_find_by_type')
+ALSO = [('C02', ('end-handle-mapping',))]   # the requested range bounds what both group discoveries report: decided by C02's rule, run here as well
 META = {
     'level': 'guarded-by rule on the two emitters of the Primary Service group (Read By Group Type: collect_primary_services::each -> read_primary_service_response; Find By Type Value: '
              'services_by_group::each -> iterator call): the emission is control dependent on a test that the service declaration attribute at the service\'s index has type «Primary Service» '
